@@ -226,7 +226,26 @@ def run_history(sc):
                         kw["from_state"] = {b.all_nodes()[int(i)].name: fl([v]) for i, v in o["from_state"].items()}
                     else:
                         kw["from_state"] = fl([list(o["from_state"].values())[0]])
-                if o["op"] == "run":
+                if o["op"] == "runs":
+                    # one run over a LIST of sequences (array inputs; forced feedbacks as {id: [rows per sequence]})
+                    if o.get("fbs"):
+                        kw["forced_feedbacks"] = {b.all_nodes()[int(i)].name: [fl(r) for r in seqs] for i, seqs in o["fbs"].items()}
+                        kw["shift_fb"] = o.get("shift_fb", True)
+                    res = m.run([fl(x) for x in o["Xs"]], **kw)
+                    _, _, mouts = b.model_struct(o["model"])
+                    if isinstance(res, dict) and sc["models"][o["model"]].get("build") == "esn":
+                        per_out = [res["readout"]]
+                    elif isinstance(res, dict):
+                        per_out = [res[b.all_nodes()[i].name] for i in mouts]
+                    else:
+                        per_out = [res]
+                    per_out = [[np.asarray(a) for a in (po if isinstance(po, (list, tuple)) else [po])] for po in per_out]
+                    outs_seq = []
+                    for k in range(len(o["Xs"])):
+                        arrs = [po[k].reshape(len(o["Xs"][k]), -1) for po in per_out]
+                        outs_seq.append([[a[t].tolist() for a in arrs] for t in range(len(o["Xs"][k]))])
+                    outs = [st for sq in outs_seq for st in sq]
+                elif o["op"] == "run":
                     if is_model:
                         if o.get("fb"):
                             kw["forced_feedbacks"] = {b.all_nodes()[int(i)].name: fl(rows) for i, rows in o["fb"].items()}
@@ -240,15 +259,18 @@ def run_history(sc):
                     x = o["x"]
                     res = m.call({b.all_nodes()[int(i)].name: fl([v]) for i, v in x.items()} if isinstance(x, dict) else fl([x]), **kw)
                 _, _, mouts = b.model_struct(o["model"])
-                if isinstance(res, dict) and sc["models"][o["model"]].get("build") == "esn":
+                if o["op"] == "runs":
+                    arrs = None
+                elif isinstance(res, dict) and sc["models"][o["model"]].get("build") == "esn":
                     arrs = [np.asarray(res["readout"])]      # ESN.run keys its returned states by role
                 elif isinstance(res, dict):
                     arrs = [np.asarray(res[b.all_nodes()[i].name]) for i in mouts]
                 else:
                     arrs = [np.asarray(res)]
-                T = arrs[0].reshape(-1, arrs[0].shape[-1]).shape[0]
-                arrs = [a.reshape(T, -1) for a in arrs]
-                outs = [[a[t].tolist() for a in arrs] for t in range(T)]
+                if arrs is not None:
+                    T = arrs[0].reshape(-1, arrs[0].shape[-1]).shape[0]
+                    arrs = [a.reshape(T, -1) for a in arrs]
+                    outs = [[a[t].tolist() for a in arrs] for t in range(T)]
         except Exception as e:  # noqa: BLE001 - every exception class is an observable outcome here
             ok = False
             err = type(e).__name__
@@ -262,7 +284,7 @@ def run_history(sc):
         # make sure inserted Concat nodes are registered before states are collected next time
         for mi in range(len(b.models)):
             b.model_struct(mi)
-        obs.append({"ok": ok, "err": err, "outs": outs, "states": states, "rest": at_rest(b),
+        obs.append({"ok": ok, "err": err, "outs": outs, "outs_seq": (outs_seq if (o["op"] == "runs" and ok) else None), "states": states, "rest": at_rest(b),
                     "shapes": {i: list(np.shape(n.state())) for i, n in b.all_nodes().items()
                                if getattr(n, "is_initialized", False) and n.state() is not None}})
     return b, obs
@@ -341,7 +363,40 @@ def to_coq(sc, b, obs):
                 odim[i] = sum(odim.get(p, 0) for p in parents.get(i, []))
                 nodes.append("mkSN %s KId None %s []" % (nat(i), nat(odim[i])))
     ops = []
+    zero_states = {nd["id"]: [0] * nd["odim"] for nd in sc["nodes"]}
+    prev_states = dict(zero_states)
     for o, ob in zip(sc["ops"], obs):
+        if o["op"] == "runs":
+            # a run over a list of sequences is, for a Model, the same operation applied to every sequence in turn (same flags);
+            # for the ESN node every sequence starts from the state found at the start and the last one's final state is kept
+            if not ob["ok"] or ob.get("outs_seq") is None:
+                ops.append("(OpReset 0%nat, mkObs false [] [] None)")     # a valid multi-sequence run failed: disagreement
+                continue
+            order, parents, outs_ids = b.model_struct(o["model"])
+            entries = [i for i in order if not parents.get(i)]
+            is_esn = sc["models"][o["model"]].get("build") == "esn"
+            K = len(o["Xs"])
+            for k in range(K):
+                steps = [pairs({i: row for i in entries}, qvec) for row in o["Xs"][k]]
+                fbk = {i: seqs[k] for i, seqs in (o.get("fbs") or {}).items()}
+                given = dict(o.get("from_state") or {})
+                stateful_k, reset_k = o.get("stateful", True), o.get("reset", False)
+                if is_esn:
+                    if not reset_k:
+                        full = {str(i): prev_states[i] for i in order}
+                        full.update(given)
+                        given = full
+                    if k < K - 1:
+                        stateful_k = False
+                t = "OpRun %s %s %s %s %s %s %s" % (nat(o["model"]), coqbool(stateful_k), coqbool(reset_k), pairs(given, qvec), coqlist(steps),
+                                                    coqbool(o.get("shift_fb", True)), pairs(fbk, qmat))
+                last = k == K - 1
+                obt = "mkObs true %s %s %s" % (coqlist([qmat(step) for step in ob["outs_seq"][k]]), pairs(ob["states"], qvec) if last else "[]",
+                                                "None" if (not last or ob.get("rest") is None) else "(Some %s)" % coqbool(ob["rest"]))
+                ops.append("(%s, %s)" % (t, obt))
+            prev_states = dict(zero_states); prev_states.update({int(i): v for i, v in ob["states"].items()})
+            continue
+        prev_states = dict(zero_states); prev_states.update({int(i): v for i, v in ob["states"].items()})
         if o["op"] == "reset":
             t = "OpReset %s" % nat(o["model"])
         else:
